@@ -154,7 +154,7 @@ def run_batch(case, R):
     flags = set()
     for i in range(case["n"]):
         prog = make_program(rng, "prog%d" % i)
-        one_off = prog.is_one_off
+        one_off = "/year" not in prog.unit_cost.units  # (the program's type as entered: a one-off unit cost is per person, not per person per year)
         pset = at.ProgramSet(framework=P.framework, data=P.data, tvec=np.arange(2015, 2031.0))
         pset.programs[prog.name] = prog
         dt = float(rng.choice(DTS))
@@ -174,6 +174,30 @@ def run_batch(case, R):
             R.bad("capacity=spend/unitcost", "C11:capacity-definition[%s,%s]" % ("one-off" if one_off else "continuous", "constrained" if constrained else "free"), {"dt": dt, "got": caps[:4].tolist(), "expected": exp_cap[:4].tolist(), "spend": spend[:4].tolist(), "unit_cost": uc[:4].tolist()})
         else:
             R.ok("capacity=spend/unitcost")
+        # --- the type of a program is a function of its unit cost's units *now*: after a use, the units are switched ---------------
+        if rng.random() < 0.3:
+            prog2 = prog if rng.random() < 0.5 else __import__("sciris").dcp(prog)
+            if rng.random() < 0.5:
+                prog2.unit_cost.units = "$/person/year" if one_off else "$/person (one-off)"
+            else:
+                uc_new = at.TimeSeries(units="$/person/year" if one_off else "$/person (one-off)")
+                if prog.unit_cost.assumption is not None:
+                    uc_new.insert(None, prog.unit_cost.assumption)
+                for t_, v_ in zip(prog.unit_cost.t, prog.unit_cost.vals):
+                    uc_new.insert(t_, v_)
+                prog2.unit_cost = uc_new
+            caps2 = np.asarray(prog2.get_capacity(tvec, np.array(spend, dtype=float, copy=True), dt), dtype=float)
+            exp2 = spend * (dt if not one_off else 1.0) / uc
+            if constrained:
+                exp2 = np.minimum(exp2, cc)
+            R.count("programs_whose_type_is_switched_after_a_use")
+            if not np.allclose(caps2, exp2, rtol=1e-12, atol=0):
+                R.bad("capacity=spend/unitcost", "C11:capacity-definition-after-switching-the-unit-cost-units[%s->%s]" % ("one-off" if one_off else "continuous", "continuous" if one_off else "one-off"), {"dt": dt, "got": caps2[:4].tolist(), "expected": exp2[:4].tolist()})
+            else:
+                R.ok("capacity=spend/unitcost")
+            # (switch back for the checks below)
+            if prog2 is prog:
+                prog.unit_cost.units = "$/person (one-off)" if one_off else "$/person/year"
         # --- the program-level call with the caller's own array: the same answer, twice, and the array is left alone ------------
         mine = np.array(spend, dtype=float, copy=True)
         keep = mine.copy()
